@@ -18,6 +18,7 @@ RULE = (
     "screen cell equals the array cell (top-left part if larger) or blank unformatted, cursor at cursor_pos, no scroll since enter. "
     "Non-trivial: a render following a different render (cache in play) that differs in >=1 row."
     ' The caller may keep one list object and edit it in place between renders (same cursor position), terminals up to 24 x 40.'
+    ' Call forms vary (cursor_pos positional / keyword / as a list / omitted = (0, 0); array as list, tuple, fsarray(rows, width), FSArray filled by a[i] = row); rows include non-ASCII blanks (NBSP, em space).'
 )
 ASSUMPTIONS = [
     "reference terminal = xterm semantics for the sequences blessed emits under TERM=xterm (vf/refterm.py); anything else is a harness error",
